@@ -126,6 +126,15 @@ where
         )));
     }
 
+    // The constraint compiler indexes `public_values` by the AIR's public-value variables.
+    let expected_public_values = A::num_public_values(air);
+    if public_values.len() != expected_public_values {
+        return Err(VerificationError::InvalidProofShape(format!(
+            "public values length mismatch: the AIR declares {expected_public_values}, got {}",
+            public_values.len()
+        )));
+    }
+
     let degree = 1 << degree_bits;
     let lookup_gadget = LogUpGadget {};
     let preprocessed_width = opt_opened_preprocessed_local_targets
